@@ -63,10 +63,10 @@ impl ErrLike for wow_login_messages::errors::EnumError {
 
 pub const NO_INT: i128 = i128::MIN;
 
-pub fn erase<T: PartialEq + std::fmt::Debug, E: ErrLike>(r: Result<T, E>, variants: &[T], as_int: fn(&T) -> i128) -> Res {
+pub fn erase<T: PartialEq + std::fmt::Debug, E: ErrLike, const N: usize>(r: Result<T, E>, variants: fn() -> [T; N], as_int: fn(&T) -> i128) -> Res {
     match r {
         Ok(v) => {
-            let idx = variants.iter().position(|x| *x == v).map(|p| p as i32).unwrap_or(-1);
+            let idx = variants().iter().position(|x| *x == v).map(|p| p as i32).unwrap_or(-1);
             let dbg = if idx < 0 { Some(format!("{:?}", v)) } else { None };
             Res { ok: true, val: as_int(&v), idx, dbg }
         }
@@ -297,6 +297,8 @@ struct EnumSummary {
     rejc: BTreeMap<(i128, i8), (u64, i128, i128)>,
     rejc_overflow: u64,
     unsupported: u64,
+    /// class of the most recent rejections, not yet merged into `rejc` (consecutive inputs mostly share it)
+    last: Option<((i128, i8), (u64, i128, i128))>,
 }
 
 impl EnumSummary {
@@ -327,18 +329,33 @@ impl EnumSummary {
         } else {
             self.rej += 1;
             let key = (r.val.wrapping_sub(input), region(input, base_range));
+            if let Some((k, e)) = self.last.as_mut() {
+                if *k == key {
+                    e.0 += 1;
+                    e.1 = e.1.min(input);
+                    e.2 = e.2.max(input);
+                    return;
+                }
+            }
+            self.flush();
+            self.last = Some((key, (1, input, input)));
+        }
+    }
+    fn flush(&mut self) {
+        if let Some((key, (cnt, lo, hi))) = self.last.take() {
             if let Some(e) = self.rejc.get_mut(&key) {
-                e.0 += 1;
-                e.1 = e.1.min(input);
-                e.2 = e.2.max(input);
+                e.0 += cnt;
+                e.1 = e.1.min(lo);
+                e.2 = e.2.max(hi);
             } else if self.rejc.len() < 64 {
-                self.rejc.insert(key, (1, input, input));
+                self.rejc.insert(key, (cnt, lo, hi));
             } else {
-                self.rejc_overflow += 1;
+                self.rejc_overflow += cnt;
             }
         }
     }
-    fn json(&self) -> String {
+    fn json(&mut self) -> String {
+        self.flush();
         let mut s = format!("\"result\":\"ok\",\"n\":{},\"unsupported\":{},\"acc\":[", self.n, self.unsupported);
         for (i, (inp, (idx, val, cnt))) in self.acc.iter().enumerate() {
             if i > 0 {
